@@ -546,10 +546,10 @@ def correspondence(ctx):
 
 if __name__ == "__main__":
     import translate_c18
-    translate_c18.regenerate()
     common.run_check(
         "C18", module="Bermuda.Properties.C18", driver_targets=["drv_c18"],
         correspondence=correspondence, level="translation_validation",
+        extra_translate=translate_c18.regenerate,
         rule="four streams: (currency) 1-4 slices over {USD,EUR,GBP,CAD,'',None} x three cell classes x scalar/array "
              "values x dyadic/int rate tables incl. missing currency / missing rate; (disagg) semi-regular triangles with "
              "period length 3/6/12, every divisor sub-resolution (plus equal, non-divisor, larger), default or dyadic "
